@@ -388,7 +388,11 @@ func c04(env *core.Env, kind string, faulty bool) {
 			}
 			_, werr := sw.Write([]byte("stale-data"))
 			cerr := error(nil)
-			if werr == nil {
+			viaCommit := c.Bool("stale.commit", 1, 3)
+			if werr == nil && viaCommit {
+				// the stale data travels with the closing PUT instead of a PATCH
+				_, cerr = sw.Commit(reg.Sha256([]byte("stale-data")))
+			} else if werr == nil {
 				cerr = sw.Close()
 			} else if c.Bool("stale.again", 1, 2) {
 				// a refused writer stays refused: a second write must not get through either
@@ -412,7 +416,7 @@ func c04(env *core.Env, kind string, faulty bool) {
 			}
 			if !r.direct {
 				if s := r.lastStatus(); s != http.StatusRequestedRangeNotSatisfiable {
-					env.Failf("C04/stale/wrong-status", "stale PATCH answered with HTTP %d, want 416", s)
+					env.Failf("C04/stale/wrong-status", "stale %s answered with HTTP %d, want 416", map[bool]string{false: "PATCH", true: "closing PUT"}[viaCommit && werr == nil], s)
 				}
 			}
 			if t2 := r.truth(); t2 != t {
